@@ -57,6 +57,24 @@ def gen(tier, seed):
         hdr = rnd.random() < 0.3
         modi = rnd.choice(['n', 'n', 'h', 'N'])
         cases.append(('pieces', pol, rnd.choice(['utf-8', 'latin-1']), hdr, modi, d, comment, t, csvgen.random_partition(rnd, t)))
+    # a SMALL chunk followed by a LARGE one (a header line flushed on its own, then a block; a pipe that delivers 5000 + 3 + the rest): whatever a reader
+    # does to group small chunks, the bytes are processed in the order they arrived, multi-byte characters cut by the boundary included
+    for i in range(4 if tier == 'quick' else 30):
+        parts = []
+        size = 0
+        target = rnd.choice([6000, 9000, 15000])
+        while size < target:
+            s = rnd.choice(['a,b', '"x,""y"', 'é,中', 'z', '"multi\nline",q', '#c', 'u', '😀,1', 'id,name'])
+            parts.append(s)
+            size += len(s.encode('utf-8')) + 1
+        text = rnd.choice(['\n', '\r\n']).join(parts) + '\n'
+        data = text.encode('utf-8')
+        for cuts in ([14], [35], [5000, 5003], [1, 4097], [4095], [4096, 4097], [100, 200, 4500], [3, 4100, 4101]):
+            cuts = [c for c in cuts if c < len(data)]
+            pieces, prev = [], 0
+            for c in cuts + [len(data)]:
+                pieces.append(data[prev:c]); prev = c
+            cases.append(('bytes', 'quoted_rfc', 'utf-8', False, 'n', ',', '#', text, [p.decode('latin-1') for p in pieces if p]))
     # large files crossing the 64 KiB default chunk size of fs.createReadStream
     for i in range(3 if tier == 'quick' else 12):
         parts = []
@@ -78,6 +96,8 @@ def to_line(c):
     cm = '~' if comment is None else enc_str(comment)
     if kind == 'all':
         return csvgen.line_readall('readjsall', pol, enc, hdr, modi, d, comment, t, extra)
+    if kind == 'bytes':
+        return 'readjsbytes %s %s %s %s %s %s' % (pol, '1' if hdr else '0', modi, enc_str(d), cm, enc_list(extra))
     if kind == 'file':
         return 'readjsfile %s %s %s %s %s %s %s' % (pol, enc, '1' if hdr else '0', modi, enc_str(d), cm, enc_str(t))
     return 'readjs %s %s %s %s %s %s %s' % (pol, enc, '1' if hdr else '0', modi, enc_str(d), cm, enc_list(extra))
